@@ -29,12 +29,15 @@ def gen_env(rng, faulty=True):
     if rng.random() < 0.4:
         e["clock"] = {"mode": rng.choice(["steady", "tiny", "frozen", "backward", "jump"]),
                       "seed": rng.randint(0, 2 ** 32)}
+    if rng.random() < 0.08:
+        e["ambient"] = {"decimal_rounding": rng.choice(["ROUND_DOWN", "ROUND_UP", "ROUND_FLOOR", "ROUND_CEILING", "ROUND_HALF_UP"]),
+                        "decimal_prec": rng.choice([28, 6, 3])}
     return e
 
 
 def env_cfg(op):
     e = op.get("env") or {}
-    return {k: e[k] for k in ("log", "depth", "pollute", "clock") if k in e}
+    return {k: e[k] for k in ("log", "depth", "pollute", "clock", "ambient") if k in e}
 
 
 def simplify_env(spec):
